@@ -276,7 +276,7 @@ def tlc_mc(ctx, module, cfg=None, workers=8, env=None, timeout=1800, xmx="12g", 
         if not expect_violation or "Parsing or semantic analysis failed" in out or "Exception" in out:
             log(out[-4000:])
             raise ToolError("TLC error in %s/%s" % (module, cfg))
-    if not m and not simulate:
+    if not m and not simulate and not (expect_violation and res["violated"]):
         log(out[-4000:])
         raise ToolError("TLC produced no state count for %s/%s" % (module, cfg))
     # coverage: action-level lines look like "<Name line a, col b to line c, col d of module M>: distinct:generated"
